@@ -209,10 +209,12 @@ class Reject(Unit):
         elif k == "type":
             other = pb.IntensitySignal if cls is pb.RadioSignal else (pb.Signal if cls is not pb.Signal else _SubSignal)
             pieces[w] = other.like(pieces[w])
-        elif k == "labels":          # joining along a non-frequency axis with different channel labels
-            S.assume(z3.Or(rterm(d) > 1, rterm(d) < -1))
-            S.assume(z3.And(rterm(d) < 10**4, rterm(d) > -10**4))
-            pieces[w] = cls.like(pieces[w], center_freq=pieces[w].center_freq + S.quantity(d, u.kHz))
+        elif k == "labels":          # joining along a non-frequency axis with channel labels off by at least one channel
+            from pbsym.modes import qterm
+            bwt = qterm(sig.chan_bw, u.Hz)
+            S.assume(z3.Or(rterm(d) >= bwt, -rterm(d) >= bwt))
+            S.assume(z3.And(rterm(d) < 10**8, rterm(d) > -10**8))
+            pieces[w] = cls.like(pieces[w], center_freq=pieces[w].center_freq + S.quantity(d, u.Hz))
         elif k == "t0-other-axis":   # joining along a sample axis with different start times
             S.assume(z3.Or(rterm(d) >= RV(dt), -rterm(d) >= RV(dt)))
             S.assume(z3.And(rterm(d) < 10**6, rterm(d) > -10**6))
